@@ -14,7 +14,7 @@ PROP = "C13"
 COQ = dict(imports=["Model.AlterCol", "Spec.C13"], in_ty="c13_in", out_ty="out",
            corr="corr_C13", decide="check_C13", model="model_C13")
 THEOREMS = ["C13_sem_is_assign", "C13_decider_sound", "C13_model_holds_partial", "C13_effect", "C13_restated",
-            "C13_raises_instead", "C13_raises_iff_unsupported", "C13_autoinc_ignored", "C13_autoinc_ignored_refuted",
+            "C13_raises_instead", "C13_raises_iff_unsupported", "C13_toimpl_frame", "C13_autoinc_ignored", "C13_autoinc_ignored_refuted",
             "C13_stated_enough_exact", "C13_stated_enough_minimal"]
 TRUSTED = [
     "C13 statement tokenizer in harness/props/c13.py (SQL text -> abstract statements; strict per dialect, fails loudly)",
@@ -24,8 +24,10 @@ TRUSTED = [
 ]
 ASSUME = [
     "server defaults are plain strings (no Identity / Computed), comments are non-empty strings",
-    "types have no type-bound CHECK constraint (Boolean/Enum with create_constraint=True are outside the model, so the "
-    "constraint drop/add of toimpl.alter_column is not exercised)",
+    "type-bound CHECK constraints (Boolean / non-native Enum with create_constraint=True) are named; which constraint "
+    "toimpl's _count_constraint accepts for a type on a dialect is SQLAlchemy's create rule, observed by the harness and given to "
+    "the model as ty_ck; DROP/ADD CONSTRAINT are modelled as leaving the six column attributes alone (the constraint itself is not "
+    "a modelled attribute: e.g. MySQL/SQLite skipping the DROP is reproduced by the model but not judged)",
     "whether the backend accepts the spelling (SQLite has no ALTER COLUMN; MSSQL rejects ADD DEFAULT when a default is "
     "bound) is not part of the statement; non-batch mode only",
 ]
@@ -39,7 +41,8 @@ LEVEL_TEXT = ("Machine-checked: for every dialect, request and stated existing a
               "existing_* values each dialect needs are characterised exactly with counter-examples; the ignored autoincrement= on "
               "non-MySQL dialects is proved as a refutation. The model equals the real op.alter_column output on the whole lattice.")
 LEVEL_NOTE = ("Trusted: Coq kernel+vm_compute, the hand-written model (tied exhaustively on the lattice), the SQL tokenizer and the "
-              "abstract statement semantics. Identity/Computed defaults, type-bound CHECK constraints and batch mode are outside.")
+              "abstract statement semantics. Identity/Computed defaults and batch mode are outside; type-bound CHECK constraints are "
+              "in the model and the tie but are not one of the six judged attributes.")
 EXHAUSTIVE = {"quick": True, "thorough": True}
 CASE_TIMEOUT = 10
 
@@ -48,7 +51,8 @@ COQ_DIALECT = {"default": "Ddefault", "sqlite": "Dsqlite", "postgresql": "Dpostg
                "mariadb": "Dmariadb", "mssql": "Dmssql", "oracle": "Doracle"}
 
 # catalogue: name -> (coq id, is DateTime affinity)
-TYPES = {"T0": (10, False), "T1": (11, False), "DT0": (20, True), "DT1": (21, True)}
+TYPES = {"T0": (10, False), "T1": (11, False), "B0": (12, False), "E1": (13, False), "DT0": (20, True), "DT1": (21, True)}
+CK_IDS = {"ckb": 50, "cke": 51}         # names of the type-bound CHECKs of B0 (Boolean) and E1 (non-native Enum)
 DEFAULT_IDS = {"7": 7, "9": 9}          # existing default text '7', requested '9'
 COMMENT_IDS = {"oc": 30, "nc": 31}      # existing comment, requested comment
 NAME_IDS = {"c": 1, "d": 2}
@@ -70,11 +74,11 @@ TRI3 = [None, True, False]
 PRES = [None, True]          # presence only (one polarity)
 
 
-def lattice(d, req_types, ex_types, schemas, rnull=TRI3, rauto=TRI3, enull=TRI3, eauto=TRI3, usings=(None,)):
+def lattice(d, req_types, ex_types, schemas, rnull=TRI3, rauto=TRI3, enull=TRI3, eauto=TRI3, usings=(None,), tri="FNS"):
     """schemas: [False], [True], [False, True] (both for every pattern) or "alt" (alternating along the enumeration)"""
     k = 0
-    for rt, rn, rd, rname, rc, ra, ru in itertools.product(req_types, rnull, "FNS", [None, "d"], "FNS", rauto, usings):
-        for et, en, ed, ec, ea in itertools.product(ex_types, enull, "FNS", [None, "S"], eauto):
+    for rt, rn, rd, rname, rc, ra, ru in itertools.product(req_types, rnull, tri, [None, "d"], tri, rauto, usings):
+        for et, en, ed, ec, ea in itertools.product(ex_types, enull, tri, [None, "S"], eauto):
             k += 1
             for sch in ([bool(k & 1)] if schemas == "alt" else schemas):
                 yield {"d": d, "schema": sch, "req": _req(rt, rn, rd, rname, rc, ra, ru), "ex": _ex(et, en, ed, ec, ea)}
@@ -89,9 +93,11 @@ RULE = (
     "quick: mssql complete (existing_autoincrement absent/True), default/postgresql/oracle complete except existing_nullable "
     "absent/False and existing_autoincrement absent/True, mysql complete incl. DateTime types (existing_autoincrement absent/True), "
     "mariadb and sqlite on the presence lattice (one polarity per boolean), schema alternating along "
-    "the enumeration, plus postgresql_using on the postgresql presence lattice. thorough: all seven dialects complete x {schema, no "
+    "the enumeration, plus postgresql_using on the postgresql presence lattice, plus on every dialect the schema types B0 = "
+    "Boolean(create_constraint=True) / E1 = non-native Enum(create_constraint=True) as type_ and existing_type on a presence "
+    "lattice with server_default/comment in {absent, value} (toimpl's DROP/ADD CONSTRAINT). thorough: all seven dialects complete x {schema, no "
     "schema}, mysql/mariadb with DateTime types, plus on every dialect a slice with requested type == existing type / DateTime types "
-    "and a slice with postgresql_using. non-trivial = no exception and at least one statement emitted; distinct by encoded input")
+    "a slice with postgresql_using and the schema-type slice on the full presence lattice. non-trivial = no exception and at least one statement emitted; distinct by encoded input")
 
 
 def generate(tier, seed):
@@ -105,6 +111,9 @@ def generate(tier, seed):
                            enull=[None, False], eauto=PRES)
         yield from lattice("postgresql", [None, "T1"], [None, "T0"], "alt", rnull=PRES, rauto=PRES, enull=PRES, eauto=PRES,
                            usings=["u1"])
+        for d in DIALECTS:      # schema types with a type-bound CHECK (toimpl.alter_column's constraint drop/add)
+            yield from lattice(d, [None, "E1", "B0"], [None, "B0", "E1"], "alt", rnull=PRES, rauto=[None], enull=[None, False],
+                               eauto=[None], tri="FS")
     else:
         for d in DIALECTS:
             if d in ("mysql", "mariadb"):
@@ -115,22 +124,27 @@ def generate(tier, seed):
                                eauto=PRES)
             yield from lattice(d, [None, "T1"], [None, "T0"], "alt", rnull=PRES, rauto=PRES, enull=[None, False], eauto=PRES,
                                usings=["u1"])
+            yield from lattice(d, [None, "E1", "B0", "T1"], [None, "B0", "E1", "T0"], "alt", rnull=PRES, rauto=PRES,
+                               enull=[None, False], eauto=PRES)
 
 
 def search(tier, seed):
+    """seeded random points of the widest lattice (all catalogue types incl. schema types, both polarities, using, schema)"""
     rnd = random.Random(seed * 7919 + 13)
-    allc = []
-    for d in DIALECTS:
-        allc.extend(lattice(d, [None, "T1", "DT1", "T0"], [None, "T0", "DT0"], "alt", usings=[None, "u1"]))
-    rnd.shuffle(allc)
-    return allc[:40000]
+    c = rnd.choice
+    for _ in range(40000):
+        yield {"d": c(DIALECTS), "schema": c([False, True]),
+               "req": _req(c([None, "T1", "DT1", "T0", "B0", "E1"]), c(TRI3), c("FNS"), c([None, "d"]), c("FNS"), c(TRI3),
+                           c([None, None, "u1"])),
+               "ex": _ex(c([None, "T0", "DT0", "B0", "E1"]), c(TRI3), c("FNS"), c([None, "S"]), c(TRI3))}
 
 
 # ----------------------------------------------------------------------------- encoders
 
-def _ty(name):
+def _ty(name, d):
     i, dt = TYPES[name]
-    return "(mkTy %d %s)" % (i, "true" if dt else "false")
+    ck = _context(d)[3][name]
+    return "(mkTy %d %s %s)" % (i, "true" if dt else "false", "None" if ck is None else "(Some %d)" % ck)
 
 
 def _opt(x, f):
@@ -148,15 +162,16 @@ def _tri(code, val):
 def encode_in(h):
     r, e = h["req"], h["ex"]
     req = "(mkReq %s %s %s %s %s %s %s)" % (
-        _opt(r["type"], _ty), _opt(r["null"], _b), _tri(r["default"], 9), _opt(r["name"], lambda n: str(NAME_IDS[n])),
+        _opt(r["type"], lambda t: _ty(t, h["d"])), _opt(r["null"], _b), _tri(r["default"], 9), _opt(r["name"], lambda n: str(NAME_IDS[n])),
         _tri(r["comment"], 31), _opt(r["autoinc"], _b), _opt(r.get("using"), lambda u: str(USING_IDS[u])))
     ex = "(mkEx 1 %s %s %s %s %s)" % (
-        _opt(e["type"], _ty), _opt(e["null"], _b), _tri(e["default"], 7),
+        _opt(e["type"], lambda t: _ty(t, h["d"])), _opt(e["null"], _b), _tri(e["default"], 7),
         "None" if e["comment"] is None else "(Some 30)", _opt(e["autoinc"], _b))
     return "(mkIn %s %s %s %s)" % (COQ_DIALECT[h["d"]], _b(h["schema"]), req, ex)
 
 
-def encode_stmt(s):
+def encode_stmt(s, d):
+    _ty = lambda t: globals()["_ty"](t, d)
     k = s[0]
     if k == "SetNull":
         return "SetNull %s" % _b(s[1])
@@ -164,7 +179,7 @@ def encode_stmt(s):
         return "%s %s" % (k, _opt(s[1], str))
     if k == "SetType":
         return "SetType %s %s" % (_ty(s[1]), _opt(s[2], str))
-    if k in ("Rename", "MSSQLSpRename", "MSSQLAddDefault"):
+    if k in ("Rename", "MSSQLSpRename", "MSSQLAddDefault", "DropConstraint", "AddConstraint"):
         return "%s %d" % (k, s[1])
     if k in ("MySQLChange", "MySQLModify"):
         sp = s[-1]
@@ -180,8 +195,8 @@ def encode_stmt(s):
     raise AssertionError("unknown abstract statement %r" % (s,))
 
 
-def encode_out(stmts, err):
-    return "([%s], %s)" % ("; ".join(encode_stmt(s) for s in stmts), "None" if err is None else "(Some %s)" % err)
+def encode_out(stmts, err, d):
+    return "([%s], %s)" % ("; ".join(encode_stmt(s, d) for s in stmts), "None" if err is None else "(Some %s)" % err)
 
 
 # ----------------------------------------------------------------------------- the real code
@@ -190,14 +205,31 @@ _CTX = {}
 
 
 def _sa_types():
+    """factories (a fresh type object per call, as a migration script would write them inline)"""
     import sqlalchemy as sa
-    return {"T0": sa.Integer(), "T1": sa.String(30), "DT0": sa.DateTime(),
-            "DT1": [sa.TIMESTAMP(), sa.DateTime(timezone=True)]}
+    return {"T0": sa.Integer, "T1": lambda: sa.String(30), "DT0": sa.DateTime,
+            "B0": lambda: sa.Boolean(create_constraint=True, name="ckb"),
+            "E1": lambda: sa.Enum("a", "b", name="cke", native_enum=False, create_constraint=True),
+            "DT1": [sa.TIMESTAMP, lambda: sa.DateTime(timezone=True)]}
+
+
+def _counted_constraint(mk, typeobj):
+    """oracle for ty_ck: the name of the constraint that toimpl.alter_column's `_count_constraint` accepts for a column
+    of this type on this dialect (SQLAlchemy's SchemaType create rule decides); None when there is none"""
+    import sqlalchemy as sa
+    from alembic.operations import Operations
+    ops = Operations(mk(io.StringIO()))
+    compiler = ops.impl.dialect.statement_compiler(ops.impl.dialect, None)
+    t = ops.schema_obj.table("t", sa.Column("c", typeobj))
+    names = [c.name for c in t.constraints
+             if not isinstance(c, sa.PrimaryKeyConstraint) and (not c._create_rule or c._create_rule(compiler))]
+    assert len(names) <= 1, names
+    return CK_IDS[names[0]] if names else None
 
 
 def _context(dn):
-    """(MigrationContext factory, type token table) per dialect; the token table is built with the dialect's own
-    type compiler, and DT1 is the first DateTime-affinity candidate that renders differently from DT0"""
+    """(MigrationContext factory, type factories, type token table, ty_ck oracle) per dialect; the token table is built
+    with the dialect's own type compiler, and DT1 is the first DateTime-affinity candidate that renders differently from DT0"""
     if dn in _CTX:
         return _CTX[dn]
     from alembic.runtime.migration import MigrationContext
@@ -212,16 +244,15 @@ def _context(dn):
     cat = _sa_types()
     objs = {k: v for k, v in cat.items() if k != "DT1"}
     for cand in cat["DT1"]:
-        if tc.process(cand) != tc.process(cat["DT0"]):
+        if tc.process(cand()) != tc.process(cat["DT0"]()):
             objs["DT1"] = cand
             break
-    for k in ("DT0", "DT1"):
-        assert objs[k]._type_affinity is sqltypes.DateTime
-    for k in ("T0", "T1"):
-        assert objs[k]._type_affinity is not sqltypes.DateTime
-    tokens = {tc.process(o): k for k, o in objs.items()}
-    assert len(tokens) == 4, (dn, tokens)
-    _CTX[dn] = (mk, objs, tokens)
+    for k in objs:
+        assert (objs[k]()._type_affinity is sqltypes.DateTime) == TYPES[k][1], k
+    tokens = {tc.process(o()): k for k, o in objs.items()}
+    assert len(tokens) == len(TYPES), (dn, tokens)
+    ck = {k: _counted_constraint(mk, o()) for k, o in objs.items()}
+    _CTX[dn] = (mk, objs, tokens, ck)
     return _CTX[dn]
 
 
@@ -230,11 +261,11 @@ def call_real(h):
     from alembic.operations import Operations
     from alembic.util import CommandError
     from sqlalchemy import exc as sa_exc
-    mk, objs, _ = _context(h["d"])
+    mk, objs, _, _ = _context(h["d"])
     r, e = h["req"], h["ex"]
     kw = {}
     if r["type"] is not None:
-        kw["type_"] = objs[r["type"]]
+        kw["type_"] = objs[r["type"]]()
     if r["null"] is not None:
         kw["nullable"] = r["null"]
     if r["default"] != "F":
@@ -248,7 +279,7 @@ def call_real(h):
     if r.get("using") is not None:
         kw["postgresql_using"] = r["using"]
     if e["type"] is not None:
-        kw["existing_type"] = objs[e["type"]]
+        kw["existing_type"] = objs[e["type"]]()
     if e["null"] is not None:
         kw["existing_nullable"] = e["null"]
     if e["default"] != "F":
@@ -303,6 +334,13 @@ def parse_statement(dn, s, tbl, tokens):
     ty_alt = "|".join(re.escape(t) for t in sorted(tokens, key=len, reverse=True))
     T = re.escape(tbl)
     mysql = dn in ("mysql", "mariadb")
+    m = re.fullmatch(r"ALTER TABLE %s DROP CONSTRAINT (\w+)" % T, s)
+    if m and not mysql:
+        return ("DropConstraint", CK_IDS[m.group(1)])
+    m = re.fullmatch(r"ALTER TABLE %s ADD CONSTRAINT (ckb) CHECK \(c IN \(0, 1\)\)" % T, s) or \
+        re.fullmatch(r"ALTER TABLE %s ADD CONSTRAINT (cke) CHECK \(c IN \('a', 'b'\)\)" % T, s)
+    if m:
+        return ("AddConstraint", CK_IDS[m.group(1)])
     if dn == "oracle":
         m = re.fullmatch(r"ALTER TABLE %s MODIFY c (NULL|NOT NULL)" % T, s)
         if m:
@@ -384,7 +422,7 @@ def parse_statement(dn, s, tbl, tokens):
 
 
 def tokenize(h, text):
-    _, _, tokens = _context(h["d"])
+    _, _, tokens, _ = _context(h["d"])
     tbl = "s.t" if h["schema"] else "t"
     return [parse_statement(h["d"], s, tbl, tokens) for s in split_statements(h["d"], text)]
 
@@ -394,7 +432,7 @@ def run_case(h):
     stmts = tokenize(h, text)          # a ValueError here is a harness problem and propagates
     out = {"sql": text, "stmts": [list(s) for s in stmts], "err": err}
     shape = "%s-%s" % (h["d"], err or ("ok%d" % len(stmts)))
-    return dict(cin=encode_in(h), cout=encode_out(stmts, err), out=out,
+    return dict(cin=encode_in(h), cout=encode_out(stmts, err, h["d"]), out=out,
                 nontrivial=bool(stmts) and err is None, shape=shape)
 
 
@@ -407,6 +445,7 @@ _ASSIGN = {
     "MySQLChange": lambda s: dict(s[2], name=s[1]), "MySQLModify": lambda s: dict(s[1]),
     "MSSQLAlterNull": lambda s: {"type": s[1], "null": s[2]}, "MSSQLAlterType": lambda s: {"type": s[1], "null": True},
     "MSSQLDropDefault": lambda s: {"default": None}, "MSSQLAddDefault": lambda s: {"default": s[1]},
+    "DropConstraint": lambda s: {}, "AddConstraint": lambda s: {},
 }
 _RESTATES = {"MySQLChange": {"type", "null", "default", "comment", "autoinc"},
              "MySQLModify": {"type", "null", "default", "comment", "autoinc"},
